@@ -16,14 +16,15 @@ CONSTANTS MaxOps, Fault, EmitCases
 Keys == {"k1", "k2", "kerr"}                   \* Twp/Rge/Sec strings; k1 is the one the probes use
 Probes == {"plss_nodir", "plss_full", "tract_build", "trs_attrs", "trs_dict", "find_twprge", "plss_qq", "trslist",
            "plss_ocrlike", "tract_bareqq",     \* (texts that only the optional OCR / clean_qq patterns would read)
-           "held_parse"}                       \* parse() of an object that may have been created earlier, under other defaults
+           "held_parse",                       \* parse() of an object that may have been created earlier, under other defaults
+           "cfg_parse"}                        \* a parse configured with a Config object the caller has used before
 NS == {"n", "s"}   EW == {"e", "w"}
 Default == [ns |-> "n", ew |-> "w"]
 MutateVia == {"trs_to_dict_str", "trs_to_dict_obj", "tract_to_dict", "tracts_to_dict", "tracts_to_list", "flag_lists"}
 Others == {"o1", "o2", "o3", "o4"}              \* o3: parsed with ocr_scrub, o4: parsed with clean_qq / find_twprge(ocr_scrub)
 \* which MasterConfig components a probe may depend on
-UsesNS(p) == p \in {"plss_nodir", "tract_build", "find_twprge", "held_parse"}
-UsesEW(p) == p \in {"tract_build", "find_twprge"}
+UsesNS(p) == p \in {"plss_nodir", "tract_build", "find_twprge", "held_parse", "cfg_parse"}
+UsesEW(p) == p \in {"tract_build", "find_twprge", "cfg_parse"}
 Pure(p, m) == [p |-> p, ns |-> IF UsesNS(p) THEN m.ns ELSE "-", ew |-> IF UsesEW(p) THEN m.ew ELSE "-"]
 \* which cache keys a probe reads
 Reads(p) == IF p \in {"find_twprge", "tract_bareqq"} THEN {} ELSE {"k1"}
@@ -32,36 +33,43 @@ Warms(o) == IF o \in {"o1", "o3"} THEN {"k1", "k2"} ELSE {"k2", "kerr"}
 
 Op(name, a, b) == [name |-> name, a |-> a, b |-> b]
 VARIABLES mc, usecache, cache, result, hist,
-          held        \* the MasterConfig under which the held (created, not yet parsed) description was made; NoHeld: none
-vars == <<mc, usecache, cache, result, hist, held>>
+          held,       \* the MasterConfig under which the held (created, not yet parsed) description was made; NoHeld: none
+          cfgobj      \* what the caller's shared Config object says about the default directions (NoHeld: nothing)
+vars == <<mc, usecache, cache, result, hist, held, cfgobj>>
 Init == mc = Default /\ usecache = TRUE /\ cache = [k \in {} |-> "ok"] /\ result = Pure("trs_attrs", Default) /\ hist = <<>>
-        /\ held = NoHeld
+        /\ held = NoHeld /\ cfgobj = NoHeld
 
 Warm(c, ks) == IF usecache THEN [k \in DOMAIN c \cup ks |-> IF k \in DOMAIN c THEN c[k] ELSE "ok"] ELSE c
 Step(op) == Len(hist) < MaxOps /\ hist' = Append(hist, op)
-SetMC == \E n \in NS : \E e \in EW : mc' = [ns |-> n, ew |-> e] /\ Step(Op("set_mc", n, e)) /\ UNCHANGED <<usecache, cache, result, held>>
-RestoreMC == mc' = Default /\ Step(Op("restore_mc", "-", "-")) /\ UNCHANGED <<usecache, cache, result, held>>
-ClearCache == cache' = [k \in {} |-> "ok"] /\ Step(Op("clear_cache", "-", "-")) /\ UNCHANGED <<mc, usecache, result, held>>
-SetUseCache == \E b \in {"on", "off"} : usecache' = (b = "on") /\ Step(Op("use_cache", b, "-")) /\ UNCHANGED <<mc, cache, result, held>>
-ParseOther == \E o \in Others : cache' = Warm(cache, Warms(o)) /\ Step(Op("parse_other", o, "-")) /\ UNCHANGED <<mc, usecache, result, held>>
-MakeTRS == \E k \in Keys : cache' = Warm(cache, {k}) /\ Step(Op("make_trs", k, "-")) /\ UNCHANGED <<mc, usecache, result, held>>
+SetMC == \E n \in NS : \E e \in EW : mc' = [ns |-> n, ew |-> e] /\ Step(Op("set_mc", n, e)) /\ UNCHANGED <<usecache, cache, result, held, cfgobj>>
+RestoreMC == mc' = Default /\ Step(Op("restore_mc", "-", "-")) /\ UNCHANGED <<usecache, cache, result, held, cfgobj>>
+ClearCache == cache' = [k \in {} |-> "ok"] /\ Step(Op("clear_cache", "-", "-")) /\ UNCHANGED <<mc, usecache, result, held, cfgobj>>
+SetUseCache == \E b \in {"on", "off"} : usecache' = (b = "on") /\ Step(Op("use_cache", b, "-")) /\ UNCHANGED <<mc, cache, result, held, cfgobj>>
+ParseOther == \E o \in Others : cache' = Warm(cache, Warms(o)) /\ Step(Op("parse_other", o, "-")) /\ UNCHANGED <<mc, usecache, result, held, cfgobj>>
+MakeTRS == \E k \in Keys : cache' = Warm(cache, {k}) /\ Step(Op("make_trs", k, "-")) /\ UNCHANGED <<mc, usecache, result, held, cfgobj>>
 \* the caller modifies a dict / list it got from a conversion function
 Mutate == \E k \in {"k1", "k2"} : \E via \in MutateVia :
             /\ cache' = IF Fault = "share_dict" /\ via = "trs_to_dict_obj" /\ k \in DOMAIN cache
                         THEN [cache EXCEPT ![k] = "bad"] ELSE Warm(cache, {k})
-            /\ Step(Op("mutate", k, via)) /\ UNCHANGED <<mc, usecache, result, held>>
+            /\ Step(Op("mutate", k, via)) /\ UNCHANGED <<mc, usecache, result, held, cfgobj>>
 \* a description is created with wait_to_parse under the defaults in force now, and kept
-Hold == held' = mc /\ Step(Op("hold", "-", "-")) /\ UNCHANGED <<mc, usecache, cache, result>>
+Hold == held' = mc /\ Step(Op("hold", "-", "-")) /\ UNCHANGED <<mc, usecache, cache, result, cfgobj>>
+\* the caller builds a tract from components with explicit default directions, handing in the shared Config object:
+\* the library reads the object, it does not write to it
+UseCfg == /\ cfgobj' = (IF Fault = "cfg_obj_written" THEN [ns |-> "s", ew |-> "e"] ELSE cfgobj)
+          /\ cache' = Warm(cache, {"k1"})
+          /\ Step(Op("use_cfg", "s", "e")) /\ UNCHANGED <<mc, usecache, result, held>>
 Probe == \E p \in Probes :
            /\ result' = (IF \E k \in Reads(p) : k \in DOMAIN cache /\ cache[k] = "bad" THEN [p |-> p, ns |-> "corrupt", ew |-> "corrupt"]
                          ELSE IF Fault = "freeze_default" THEN Pure(p, Default)
                          ELSE IF Fault = "held_keeps_defaults" /\ p = "held_parse" /\ held # NoHeld THEN Pure(p, held)
+                         ELSE IF p = "cfg_parse" /\ cfgobj # NoHeld THEN Pure(p, cfgobj)
                          ELSE Pure(p, mc))
            /\ cache' = Warm(cache, Reads(p))
            \* (held_parse parses the held object, or a new one if there is none; the object stays)
            /\ held' = IF p = "held_parse" /\ held = NoHeld THEN mc ELSE held
-           /\ Step(Op("probe", p, "-")) /\ UNCHANGED <<mc, usecache>>
-Next == SetMC \/ RestoreMC \/ ClearCache \/ SetUseCache \/ ParseOther \/ MakeTRS \/ Mutate \/ Hold \/ Probe
+           /\ Step(Op("probe", p, "-")) /\ UNCHANGED <<mc, usecache, cfgobj>>
+Next == SetMC \/ RestoreMC \/ ClearCache \/ SetUseCache \/ ParseOther \/ MakeTRS \/ Mutate \/ Hold \/ UseCfg \/ Probe
 Spec == Init /\ [][Next]_vars
 
 CacheSound == \A k \in DOMAIN cache : cache[k] = "ok"
